@@ -19,3 +19,5 @@ def check(ctx: Ctx) -> None:
     N.r_id_discipline(ctx, "R06.5")
     # "and to no other task": a cancellation delivered to one pool task must not travel on through something it awaits
     S.r_no_shared_task(ctx, "R06.6")
+    # 'each observes one CancelledError at its next suspension point': also when that point lies inside a pool coroutine
+    K.r_no_swallow(ctx, "R06.7")
